@@ -57,7 +57,14 @@ def gen(tier, rnd):
         repeat = (not paused) and (not wide) and rnd.random() < 0.3
         if repeat and not any(e is None for e in elems[:-1]):
             elems = elems[:1] + [None] + elems[1:] + [{"leaf": leaf()}]
-        cases.append({"elems": elems, "paused": paused, "traffic": rnd.choice([0, 1, 3]), "gomaxprocs": rnd.choice([0, 0, 1, 4, 16]),
+        # some results are messages whose type implements error (a message like any other), and in some programs a filter
+        # drops the result of one element: the elements after it run all the same
+        leaves_all = [x for e in elems if e for x in ([e["leaf"]] if "leaf" in e else e["batch"])]
+        for x in leaves_all:
+            x["errret"] = x["ret"] is not None and rnd.random() < 0.25
+        with_ret = [x for x in leaves_all[:-1] if x["ret"] is not None]
+        dropped = rnd.choice(with_ret)["ret"] if (with_ret and not paused and rnd.random() < 0.3) else None
+        cases.append({"elems": elems, "paused": paused, "traffic": rnd.choice([0, 1, 3]), "gomaxprocs": rnd.choice([0, 0, 1, 4, 16]), "dropped": dropped,
                       "repeat": 2 if repeat else 1, "wide": wide,
                       # how long the loop stays inside the unrelated Update after the element finished (a hand-over that
                       # stops waiting for the loop after some time-out shows with the long one)
@@ -66,7 +73,19 @@ def gen(tier, rnd):
 
 
 def spec_of(lf):
-    return P.cmd(lf["id"], ret=P.U(lf["ret"]) if lf["ret"] is not None else None, sleep_us=lf["sleep_us"], block=lf["block"])
+    ret = None
+    if lf["ret"] is not None:
+        ret = P.B("errmsg", w=lf["ret"]) if lf.get("errret") else P.U(lf["ret"])
+    return P.cmd(lf["id"], ret=ret, sleep_us=lf["sleep_us"], block=lf["block"])
+
+
+def result_key(c, ret):
+    for e in c["elems"]:
+        if e:
+            for x in ([e["leaf"]] if "leaf" in e else e["batch"]):
+                if x["ret"] == ret:
+                    return ("err:%d" if x.get("errret") else "u:%d") % ret
+    return "u:%d" % ret
 
 
 def scenarios(cases):
@@ -92,7 +111,10 @@ def scenarios(cases):
             if c.get("repeat", 1) > 1:
                 script += [P.DO("sleep", us=8000), P.W("idle"), P.DO("sleep", us=3000), P.W("idle"), P.DO("send", msg=P.U(1))]
         script += [P.DO("sleep", us=5000), P.W("idle"), P.DO("sleep", us=3000), P.W("idle"), P.DO("quit"), P.W("returned")]
-        s = P.scenario(i, script, opts={"fps": 120}, update=upd, senders=senders, watchdog_ms=6000)
+        o = {"fps": 120}
+        if c.get("dropped") is not None:
+            o["filter"] = {"drop": [result_key(c, c["dropped"])]}
+        s = P.scenario(i, script, opts=o, update=upd, senders=senders, watchdog_ms=6000)
         if c["gomaxprocs"]:
             s["gomaxprocs"] = c["gomaxprocs"]
         else:
@@ -103,7 +125,7 @@ def scenarios(cases):
 
 def analyse(c, r):
     probs = []
-    evs = r["events"]
+    evs = [dict(e, key="u:" + e["key"][4:]) if e.get("key", "").startswith("err:") else e for e in r["events"]]
     start = {e["id"]: e["c"] for e in evs if e["ev"] == "CmdStart"}
     end = {e["id"]: e["c"] for e in evs if e["ev"] == "CmdEnd"}
     updc = {int(e["key"][2:]): e["c"] for e in evs if e["ev"] == "UpdateBegin" and e.get("key", "").startswith("u:")}
@@ -131,7 +153,7 @@ def analyse(c, r):
             for x in ([e["leaf"]] if "leaf" in e else e["batch"]):
                 if nstart.get(x["id"], 0) != rep:
                     probs.append(("repeat-starts", "a stored Sequence command was dispatched %d times; its command %d was started %d times" % (rep, x["id"], nstart.get(x["id"], 0))))
-                if x["ret"] is not None and nupd.get(x["ret"], 0) != rep:
+                if x["ret"] is not None and nupd.get(x["ret"], 0) != (0 if x["ret"] == c.get("dropped") else rep):
                     probs.append(("repeat-messages", "a stored Sequence command was dispatched %d times; the message of its command %d reached Update %d times" % (rep, x["id"], nupd.get(x["ret"], 0))))
         return probs
     prev_done = None       # clock after which the next element may start
@@ -166,7 +188,9 @@ def analyse(c, r):
             if min(cl) < last_upd:
                 probs.append(("update-order", "messages of sequence elements reached Update out of sequence order"))
             last_upd = max(cl)
-        missing = [t for t in rets if t not in updc]
+        missing = [t for t in rets if t not in updc and t != c.get("dropped")]
+        if c.get("dropped") in rets and c.get("dropped") in updc:
+            probs.append(("filter", "the filter dropped message %s of a sequence element, yet it reached Update" % c.get("dropped")))
         if missing:
             probs.append(("lost", "messages %s of a sequence element never reached Update" % missing))
     return probs
